@@ -71,6 +71,7 @@ type HarnessSpec struct {
 	Renames   map[string]string `json:"renames,omitempty"`    // callee full name -> harness function name
 	EffectsOf []string          `json:"effects_of,omitempty"` // C20: report stores to pre-existing memory
 	Params    map[string]int    `json:"params,omitempty"`     // concrete parameters passed to the entry (lengths etc.)
+	LoopAssume map[string]int   `json:"loop_assume,omitempty"` // function name -> iteration bound taken as an ASSUMPTION (stated bound)
 	Globals   []string          `json:"globals,omitempty"` // package-level variables whose (natively dumped) values the harness reads
 	Mutants   []Mutant          `json:"mutants,omitempty"`
 	ExpectSat []string          `json:"expect_sat,omitempty"` // assertion ids that MUST be violated (vacuity twins)
@@ -357,6 +358,7 @@ func newMachine(prog *ssa.Program, h HarnessSpec) *Machine {
 	}
 	m.cur = &State{mem: map[int]Value{}}
 	m.dump = globalDump
+	m.loopAssume = h.LoopAssume
 	return m
 }
 
